@@ -1,3 +1,5 @@
+"""Writes the TLC configurations spec/MC_MolAssign_*.cfg (C06 / C07). usage: gen_molassign_cfgs.py /verif/spec
+The .cfg files are committed; this script only documents how they were produced."""
 import sys
 INV0 = ['Inv_Conservation','Inv_C06_Homogeneous','Inv_C06_Linked','Inv_C06_Exact','Inv_C06_OnePrimary','Inv_C06_Counts','Inv_C06_Idempotent',
        'Inv_C07_ExactlyOnce','Inv_C07_SamePartition','Inv_C07_NoPremature','Inv_C07_PoolingAgnostic']
@@ -28,7 +30,7 @@ cfg('c06chicr_q', Kind='"chic"', Radius=1, Strands='{0, 1}', Sites='{0,1,2,3}', 
 PLAIN = dict(Kind='"plain"', Contigs='{1, 2}', Sites='{0,1,2}', Lens='{1, 2}', MaxFrags=3, Scheds='{1000, 0}', CacheSize=4)
 cfg('c06plain_q', **PLAIN)
 cfg('c06plain_contig', Variant='"impl_contig"', **PLAIN)
-cfg('c06plainr_q', **dict(PLAIN, Radius=1, CacheSize=6, Contigs='{1}', Sites='{0,1,2,3}', MaxFrags=4, Strands='{0, 1}', Lens='{1,2}'))
+cfg('c06plainr_q', **dict(PLAIN, Radius=1, CacheSize=6, Contigs='{1}', Sites='{0,1,2,3}', MaxFrags=4, Strands='{0}', Lens='{1,2}', Scheds='{1000}'))
 
 # thorough
 cfg('c07nla_t', **dict(C07NLA, Sites='{0,1,2,3,4}', Scheds='{1000, 0, 1, 2}', ReadLens='{1, 9}'))
@@ -46,4 +48,4 @@ cfg('gen3_q', extra_lines=GEN, inv=['Inv_Conservation'], **dict(C07NLA, Scheds='
 cfg('gen4_q', extra_lines=GEN, inv=['Inv_Conservation'], **dict(C07NLA, Sites='{0,1,2}', Scheds='{0}', Poolings='{0}', MaxFrags=4))
 cfg('genchic_q', extra_lines=GEN, inv=['Inv_Conservation'], **dict(C07CHIC, Sites='{0,1,2}', Scheds='{0}', MaxFrags=4))
 cfg('genplain_t', extra_lines=GEN, inv=['Inv_Conservation'], Kind='"plain"', Radius=1, CacheSize=6, Strands='{0, 1}', Sites='{0,1,2}', Lens='{1, 2}', Scheds='{0, 1}', Poolings='{0, 1}', MaxFrags=3)
-cfg('gen4_t', extra_lines=GEN, inv=['Inv_Conservation'], **dict(C07NLA, Sites='{0,1,2,3}', Scheds='{0, 1}', Poolings='{0, 1}', MaxFrags=4))
+cfg('gen4_t', extra_lines=GEN, inv=['Inv_Conservation'], **dict(C07NLA, Sites='{0,1,2,3}', Scheds='{0, 1}', Poolings='{0}', MaxFrags=4))
